@@ -102,7 +102,7 @@ class TournamentRecorded(Facet):
         return (200, 2) if tier == "quick" else (1000, 16)
 
     def strategy(self, tier):
-        return st.integers(1, 8).flatmap(
+        return st.one_of(st.integers(1, 8), st.integers(1, 8 if tier == "quick" else 60)).flatmap(
             lambda n: st.builds(
                 lambda values, ts, repl, tgt, minimize, seed, decoy: {"values": values, "tsize": ts, "replacement": repl, "target": tgt, "minimize": minimize, "seed": seed, "decoy": decoy, "reused": seed % 2 == 1},
                 st.lists(single_objective_values(), min_size=n, max_size=n),
